@@ -1,5 +1,6 @@
 #!/bin/sh
 # development tool: every seeded change against its property's check (prover only, then full)
 cd "$(dirname "$0")/.."
+mkdir -p out
 /venv/bin/python tools/seed_matrix.py --no-bounded > out/seed_matrix_prover.txt 2>&1
 /venv/bin/python tools/seed_matrix.py > out/seed_matrix_full.txt 2>&1
